@@ -67,14 +67,20 @@ def run(tier, seed):
   from vizier._src.service import key_value_pb2, study_pb2, vizier_service_pb2
 
   rep = C.Report('C10', tier, seed)
-  rep.rule = ('namespace tuples over {letters, unicode, colon, backslash, empty} run through the real '
+  rep.rule = ('Namespace.encode / _parse are regenerated from common.py and proved equal to the model at every run; namespace tuples over {letters, unicode, colon, backslash, empty} run through the real '
               'Namespace.encode/decode and the model; metadata merges (study and trial level) of generated '
               'KeyValue lists run through the real merge_* and the model; a case is non-trivial when the namespace '
               'has a colon/backslash/empty component, or the merge overwrites an existing key')
-  rep.trusted = ['Coq 8.16.1 kernel + vm_compute', 'harness/props/c10.py generators and Gallina printers',
+  rep.trusted = ['Coq 8.16.1 kernel + vm_compute', 'harness/translate/nsparse.py (Python-ast translator of Namespace.encode / _parse, fail-closed)', 'harness/props/c10.py generators and Gallina printers',
                  'proto shim (harness/shim/protoshim.py)']
+  tbroke = None
+  try:
+    from harness.translate import nsparse
+    C.write_gen('Gen/NamespaceSrc.v', nsparse.translate(C.REPO))
+  except Exception as e:  # pylint: disable=broad-except
+    tbroke = 'translator harness/translate/nsparse.py refused common.py: %r' % (e,)
   C.standard_proof_step(rep, 'C10')
-  broke = rep.proof_broken
+  broke = ((tbroke or '') + ' ' + (rep.proof_broken or '')).strip() or None
   concrete = False
   known = {f['id']: f for f in C.load_known() if f['property'] == 'C10'}
   r = C.rng(seed, 'c10')
@@ -254,6 +260,83 @@ def run(tier, seed):
         if not (k.HasField('proto') and k.proto.Unpack(d2) and (d2.seconds, d2.nanos) == (w[1], w[2])):
           concrete = True
           rep.violation('make_key_value_list does not carry the protobuf value that was written', {'kv': str(k)[:120], 'want': w})
+
+  # ---- algorithm-issued deltas in the LOCAL deployment (InRamPolicySupporter): a policy stores state in namespaces of its own,
+  # building the delta in every way the API offers - MetadataDelta.assign, chained .ns(), Metadata objects positioned at a
+  # namespace, absolute namespaces; afterwards the study and the trials hold, per (namespace, key), the value written last and
+  # every user entry is untouched
+  try:
+    from vizier import pythia as _py
+    from vizier import pyvizier as _vz
+    from vizier._src.pythia import local_policy_supporters as _lps
+
+    def _snap(md_):
+      return {(ns_.encode(), k_): str(v_) for ns_, k_, v_ in md_.all_items()}
+
+    class _DeltaPolicy(_py.Policy):
+      def __init__(self):
+        self.delta = None
+
+      def suggest(self, request):
+        return _py.SuggestDecision([_vz.TrialSuggestion({'x': 0.5})], metadata=self.delta)
+
+      def early_stop(self, request):
+        raise NotImplementedError()
+
+    for ai in range(60 if tier == 'quick' else 800):
+      prob_ = _vz.ProblemStatement()
+      prob_.search_space.root.add_float_param('x', 0.0, 1.0)
+      prob_.metric_information.append(_vz.MetricInformation('obj', goal=_vz.ObjectiveMetricGoal.MAXIMIZE))
+      prob_.metadata['state'] = 'user-study-value'
+      prob_.metadata.ns('u')['k'] = 'user-ns-value'
+      sup_ = _lps.InRamPolicySupporter(prob_)
+      t_ = _vz.Trial(parameters={'x': 0.1})
+      t_.metadata['state'] = 'user-trial-value'
+      sup_.AddTrials([t_])
+      pol_ = _DeltaPolicy()
+      expect_s, expect_t = _snap(sup_.GetStudyConfig().metadata), _snap(sup_.GetTrials(trial_ids=[1])[0].metadata)
+      style = ['assign', 'chain', 'positioned', 'abs'][ai % 4]
+      written = []
+      for round_ in range(2):
+        entries = [(r.choice([('algo',), ('algo', 'sub'), ('algo', ''), ('a:b',), ()]) if style != 'positioned' else r.choice([(), ('sub',), ('',)]),
+                    r.choice(['state', 'k', '']), 'v%d_%d' % (round_, j_), r.random() < 0.4) for j_ in range(r.randrange(1, 4))]
+        delta_ = _vz.MetadataDelta()
+        if style == 'positioned':
+          on_study, on_trial = _vz.Metadata().ns('algo'), _vz.Metadata().ns('algo')
+          for ns_, k_, v_, tr_ in entries:
+            tgt_ = on_trial if tr_ else on_study
+            for c_ in ns_:
+              tgt_ = tgt_.ns(c_)
+            tgt_[k_] = v_
+          delta_ = _vz.MetadataDelta(on_study=on_study, on_trials={1: on_trial})
+          entries = [(('algo',) + ns_, k_, v_, tr_) for ns_, k_, v_, tr_ in entries]
+        else:
+          for ns_, k_, v_, tr_ in entries:
+            if style == 'assign' and len(ns_) == 1:
+              delta_.assign(ns_[0], k_, v_, trial_id=1 if tr_ else None)
+            elif style == 'abs':
+              (delta_.on_trials[1] if tr_ else delta_.on_study).abs_ns(_vz.Namespace(ns_))[k_] = v_
+            else:
+              tgt_ = delta_.on_trials[1] if tr_ else delta_.on_study
+              for c_ in ns_:
+                tgt_ = tgt_.ns(c_)
+              tgt_[k_] = v_
+        pol_.delta = delta_
+        sup_.SuggestTrials(pol_, count=1)
+        for ns_, k_, v_, tr_ in entries:
+          (expect_t if tr_ else expect_s)[(_vz.Namespace(ns_).encode(), k_)] = v_
+        written.append([(list(ns_), k_, v_, tr_) for ns_, k_, v_, tr_ in entries])
+      got_s, got_t = _snap(sup_.GetStudyConfig().metadata), _snap(sup_.GetTrials(trial_ids=[1])[0].metadata)
+      rep.case({'local_algorithm_delta': style, 'entries': sum(len(w_) for w_ in written)}, style == 'positioned' or any(e_[0] == [] for w_ in written for e_ in w_))
+      rep.count('local_delta_' + style)
+      for what_, got_, exp_ in (('study', got_s, expect_s), ('trial 1', got_t, expect_t)):
+        if got_ != exp_:
+          concrete = True
+          rep.violation('algorithm delta applied by InRamPolicySupporter: the %s metadata is not "last value per (namespace, key), everything else untouched"' % what_,
+                        {'style': style, 'written': written, 'expected': sorted(map(list, exp_.items())), 'stored': sorted(map(list, got_.items()))})
+          break
+  except ImportError:
+    pass
 
   # ---- end-to-end through the service (both datastores), if the service driver is available
   try:
